@@ -416,6 +416,42 @@ def h_details(pre0: int, pre1: int, m0: int, m1: int, use_expect: bool, twice: b
     return ch.finish(not o["problems"], v, nontrivial=True)
 
 
+# --- a failed expectThat makes the test fail once it has finished, whatever else happens afterwards ---------
+AFTER = [P.RET, P.SKIP, P.XFAIL, P.SKIPSUB, P.FAIL, P.ERROR]
+
+
+def run_expect_then(where, kind, flav):
+    """expectThat mismatches in the body; afterwards stage `where` (0 body, 1 tearDown, 2 cleanup) behaves as `kind`."""
+    log = []
+    from testtools.matchers import Equals
+
+    def body(case):
+        case.expectThat(1, Equals(2))
+
+    case = P.make_case(P.RET, AFTER[kind] if where == 0 else P.RET, AFTER[kind] if where == 1 else P.RET,
+                       [AFTER[kind] if where == 2 else P.RET], log, hooks={"body": body})
+    names, exc, res = L.run_once(case, flav)
+    okb, seen = L.outcome_of(names, flav)
+    problems = []
+    bad = {L.seen_as(o, flav) for o in ("failure", "error")}
+    if not okb or seen not in bad:
+        problems.append("expectThat mismatched, then %s in stage %d: the test was reported as %r" % (P.KIND_NAMES[AFTER[kind]], where, names))
+    if exc is not None:
+        problems.append("run() raised %r" % (exc,))
+    return {"names": names, "problems": problems}
+
+
+def h_expect_then(where: int, kind: int, flav: int) -> bool:
+    """
+    pre: 0 <= where < 3 and 0 <= kind < 6 and 0 <= flav < 7
+    post: _
+    """
+    v = dict(where=ch.sel("where", where, 3), kind=ch.sel("kind", kind, 6), flav=ch.sel("flav", flav, 7))
+    o = run_expect_then(v["where"], v["kind"], v["flav"])
+    ch.LAST.update(o)
+    return ch.finish(not o["problems"], v, nontrivial=True)
+
+
 def _tr_shards(tier):
     out = []
     for ib in (0, 1):
@@ -456,6 +492,12 @@ HARNESSES = [
             fidelity=lambda seed: [(k // BLK, k % BLK, v, False) for k in range(0, len(cases()[0]), 9) for v in (False, True)],
             observe=lambda b, j, v, a: (lambda o: (__import__("re").sub(r"0x[0-9a-f]+", "0x", o.get("matcher") or ""), o.get("mismatch"), o["problems"]))(run_stock_bj(b, j, v, a)),
             describe=run_stock_bj),
+    Harness("expect_then", h_expect_then, lambda tier: [({}, 600)],
+            bounds={"quick": "a mismatching expectThat in the body followed by {return, skip, expected failure, SkipTest subclass, fail, "
+                             "error} in the body, tearDown or a cleanup x 7 result flavours: the test is reported as failed"},
+            rule="every path non-trivial", describe=run_expect_then,
+            fidelity=lambda seed: [(w, k, f) for w in range(3) for k in range(6) for f in (0, 2, 5)],
+            observe=lambda *a: run_expect_then(*a)["names"]),
     Harness("details", h_details, lambda tier: [({}, 600)],
             bounds={"quick": "0..2 user details and 1..2 mismatch details with names from {x, traceback, 'Failed expectation', e-acute, x-1}, "
                              "assertThat or expectThat, once or twice"},
